@@ -22,6 +22,12 @@ namespace Givaro {
     {
         Degree dp; degree(dp, P);
         if (dp == Degree::deginfty) { W.resize(0); return W; } // P = 0: the loop bound below would wrap
+        if (b == 0) { // P(X^0) = P(1): the constant polynomial sum of the coefficients
+            Type_t s; _domain.assign(s, _domain.zero);
+            for(size_t i=0;i<=(size_t)dp.value();++i)
+                _domain.addin(s, P[i]);
+            return assign(W, Degree(0), s);
+        }
         Type_t lc;
         leadcoef(lc, P);
         assign( W, b*dp.value(), lc); // all coeffs to zero, except leading ...
